@@ -107,6 +107,9 @@ class Sched:
         while self.granted != tid and not self.aborting:
             _ORIG_COND[0](self.cv)
         if self.aborting:
+            rec = self.waiting.pop(tid, None)
+            if rec is not None and rec["notified"]:
+                return                   # (the run is over; what this thread waited for has happened: let it finish)
             raise _Abort()
         self.granted = None
 
@@ -302,6 +305,7 @@ class Net:
         self.sched = sched
         self.lines = list(lines)
         self.waiting = list(range(len(lines)))     # connected, not yet accepted
+        self.accepted = []                         # the order in which accept() returned them
         self.next_accept = None
         self.received = [b"" for _ in lines]
         self.closed = [False for _ in lines]
@@ -430,12 +434,19 @@ def selector_class(net, on_register):
                 net.server._BaseServer__shutdown_request = True
                 return []
             net.waiting.remove(pick[1])
+            net.accepted.append(pick[1])
             net.next_accept = pick[1]
             return [(None, real_selectors.EVENT_READ)]
     return Selector
 
 
 # ------------------------------------------------------------------ requests and the sequential reference
+
+def _v1_sign():
+    r = valid_request("sign", 1, version=1)
+    r["message"] = r["message"]["hash"]
+    return r
+
 
 def requests_catalogue():
     sign = valid_request("sign", 0)
@@ -444,21 +455,32 @@ def requests_catalogue():
     return [("sign (authorized)", sign), ("blockchainState", valid_request("blockchainState")),
             ("advanceBlockchain", adv), ("signerHeartbeat", valid_request("signerHeartbeat")),
             ("getPubKey", valid_request("getPubKey")), ("sign (hash)", sign2),
-            ("advanceBlockchain (2 blocks)", valid_request("advanceBlockchain", 1))]
+            ("advanceBlockchain (2 blocks)", valid_request("advanceBlockchain", 1)),
+            ("uiHeartbeat", valid_request("uiHeartbeat")), ("v1 sign", _v1_sign()), ("v1 getPubKey", valid_request("getPubKey", 2, version=1))]
 
 
 CATALOGUE = requests_catalogue()
-FAULTY = {11, 12}     # indices into SETS served by the device that stops answering at the second block of an advance
+# special request sets (index into SETS -> mode):
+#   "faulty":  the device's blockchain state moves with every block and it stops answering at the second block of an advance
+#   "hb":      a uiHeartbeat (the device switches to the UI-heartbeat app and back to the signer: two re-openings of the link)
+#   "v1fault": a manager in legacy (v1) protocol mode; the link fails (write error) at the second exchange after serving starts
+MODES = {11: "faulty", 12: "faulty", 13: "hb", 14: "v1fault"}
 PAIRS = [(0, 1), (0, 2), (2, 1), (3, 0), (0, 5), (4, 3)]
 TRIPLES = [(0, 1, 2), (3, 0, 4), (0, 5, 2)]
 SETS = PAIRS + TRIPLES + [(0, 1, 2, 3), (2, 5, 4, 0)]                    # 2, 3 and 4 clients
-SETS = SETS + [(1, 6, 1), (6, 1, 4, 1)]      # (FAULTY) a state query before and after a two-block advance the device abandons half way
+SETS = SETS + [(1, 6, 1), (6, 1, 4, 1)]      # ("faulty") a state query before and after a two-block advance the device abandons half way
+SETS = SETS + [(7, 1, 4), (8, 9, 8)]         # ("hb") uiHeartbeat | state | getPubKey ; ("v1fault") v1: sign | getPubKey | sign
 if os.environ.get("VERIF_TIER") == "thorough":
-    SETS = SETS + [(2, 0, 3), (1, 2, 5), (0, 0, 1), (0, 0, 0, 0), (3, 2, 1, 0), (0, 1, 2, 3, 4)]    # (equal requests too), 5 clients
+    SETS = SETS + [(2, 0, 3), (1, 2, 5), (0, 0, 1), (0, 0, 0, 0), (3, 2, 1, 0), (0, 1, 2, 3, 4), (0, 1, 2, 3, 4, 5)]    # (equal requests too), 5 and 6 clients
 
 
 class _NotingLogger:
     """Swallows the server's log output, keeps what it reports as critical / error for the counterexample notes."""
+    @staticmethod
+    def quiet():
+        from harness.common import NULL_LOGGER
+        return NULL_LOGGER
+
     def critical(self, msg, *a):
         import traceback
         note("server log (critical)", threading.current_thread().name, str(msg)[:300], [str(x)[:300] for x in a], traceback.format_exc()[-1200:])
@@ -501,9 +523,10 @@ class StatefulDevice(SimDevice):
         return SimDevice.handle(self, apdu)
 
 
-def device(faulty=False):
-    from sim.ledger import SimDevice as _S   # noqa: F401
-    d = StatefulDevice(fail_block=1 if faulty else None)
+def device(mode=""):
+    d = StatefulDevice(fail_block=1 if mode == "faulty" else None)
+    if mode == "hb":
+        d.mode_after_exit = [4, 3]
     # the state query reads these: give every selector an explicit initial value
     from harness.c13 import STATE_FIELDS
     d.hashes = {sel: [sel & 0xff] * 32 for (_, sel) in STATE_FIELDS}
@@ -563,16 +586,16 @@ class ReplayDevice:
         return outcome[1]
 
 
-def isolated(req, block, reply):
+def isolated(req, block, reply, v1=False):
     """The request served by a FRESH manager against a device that replays the recorded block: does the fresh manager send
     the same APDUs (and reconnect in the same places), and does it build the same reply?  If not, the long-running manager's
     reply / exchanges depended on something other than this request and the device's answers to it."""
     events, outcomes = block
     exch = [(bytes(e[1]), o) for e, o in zip([e for e in events if e[0] == "apdu"], outcomes)]
     dev = ReplayDevice(exch)
-    proto, dongle, world = make_stack(dev, connect=True)
+    proto, dongle, world = make_stack(dev, connect=True, v1=v1)
     # a block that starts with the closing of the link is that of a manager with a reconnection pending (earlier link failure)
-    proto._comm_issue = bool(events) and events[0][0] == "close"
+    (proto.protocol_v2 if v1 else proto)._comm_issue = bool(events) and events[0][0] == "close"
     n0 = len(world.log)
     try:
         r = proto.handle_request(real_json.loads(line_of(req)))
@@ -588,38 +611,92 @@ def isolated(req, block, reply):
     return real_json.dumps(r, sort_keys=True).encode() + b"\n" == reply
 
 
-def sequential(order, reqs, faulty=False):
+LINK_FAULT_AT = 1       # "v1fault": index (after the bring-up) of the exchange whose write fails
+
+
+def _fault_or_none(mode, k_after_bringup):
+    if mode == "v1fault" and k_after_bringup == LINK_FAULT_AT:
+        from sim.base import raise_fault, FAULT_WRITE
+        raise_fault(FAULT_WRITE)
+
+
+def _wait_for_strays():
+    """Threads the code under test may have left running: give them (bounded) time to finish; True iff some were there."""
+    seen = False
+    cv = threading.Condition()
+    with cv:
+        for _ in range(500):
+            extra = [t for t in threading.enumerate() if t.ident is None or (t.ident not in _BASELINE and t is not threading.current_thread())]
+            if not extra:
+                break
+            seen = True
+            _ORIG_COND[0](cv, 0.002)
+    return seen
+
+
+def sequential(order, reqs, mode=""):
     """The requests served one after the other by one fresh manager: ({i: apdu list}, {i: reply bytes}, isolation verdict).
-    The isolation verdict says whether every request, re-run by a fresh manager of its own against the recorded device
-    answers of its block, yields the same exchanges and the same reply."""
-    proto, dongle, world = make_stack(device(faulty), connect=False)
+    The isolation verdict says whether, in this sequential run,
+      - every device exchange was made by the serving thread while it was serving a request (none by a thread left behind),
+      - every request, re-run by a fresh manager of its own against the recorded device answers of its block, yields the same
+        exchanges and the same reply,
+      - a request's block starts with the re-opening of the link only if the previous request was answered with the device-error
+        code (i.e. only the documented repair after a reported link failure, never another request's unfinished business)."""
+    proto, dongle, world = make_stack(device(mode), connect=False, v1=mode == "v1fault")
     proto.initialize_device()
     world.outcomes = []
+    base = world.exchanges
+    me = threading.get_ident()
+    stray = []
+
+    def hook(k, apdu):
+        if threading.get_ident() != me:
+            stray.append(k)
+        _fault_or_none(mode, k - base)
+    world.fault_hook = hook
     apdus, replies, blocks = {}, {}, {}
+    ok = True
+    prev_reply = None
     for i in order:
         n0, k0 = len(world.log), len(world.outcomes)
         r = proto.handle_request(real_json.loads(line_of(reqs[i])))
+        if _wait_for_strays():
+            note("the request left a thread running")
         events = list(world.log[n0:])
         apdus[i] = [bytes(e[1]) for e in events if e[0] == "apdu"]
         replies[i] = real_json.dumps(r, sort_keys=True).encode() + b"\n"
         blocks[i] = (events, list(world.outcomes[k0:]))
-    ok = all(isolated(reqs[i], blocks[i], replies[i]) for i in order)
+        if events and events[0][0] == "close" and not (isinstance(prev_reply, dict) and prev_reply.get("errorcode") in (-905, -2)):
+            note("block starts with a re-opening although the previous request was not answered with the device-error code", i)
+            ok = False
+        prev_reply = r
+    if stray:
+        note("device exchanges made by a thread other than the serving one", stray[:5])
+        ok = False
+    ok = ok and all(isolated(reqs[i], blocks[i], replies[i], v1=mode == "v1fault") for i in order)
     return apdus, replies, ok
 
 
-def serve_concurrently(reqs, choices, faulty=False):
+def serve_concurrently(reqs, choices, mode=""):
     """Real TCPServer.run with all clients waiting.  Returns (device apdu log after bring-up, bytes received per client, sched)."""
-    proto, dongle, world = make_stack(device(faulty), connect=False)
+    proto, dongle, world = make_stack(device(mode), connect=False, v1=mode == "v1fault")
     sched = Sched(choices)
     install_conditions(sched)
     net = Net(sched, [line_of(r) for r in reqs])
-    world.fault_hook = lambda k, apdu: sched.yield_point("exchange")
+    base = {"k": None}
+
+    def exchange_hook(k, apdu):
+        sched.yield_point("exchange")
+        if base["k"] is not None:
+            _fault_or_none(mode, k - base["k"])
+    world.fault_hook = exchange_hook
     saved = (socketserver.socket, socketserver._ServerSelector, socketserver.os)
     socketserver.socket = SocketModule(net)
     mark = {"n": None}
 
     def on_register():
         mark["n"] = len(world.apdus())       # everything before this point is the bring-up
+        base["k"] = world.exchanges
     socketserver._ServerSelector = selector_class(net, on_register)
     socketserver.os = OsModule()
     srv = server.TCPServer("127.0.0.1", 9999, proto)
@@ -636,10 +713,23 @@ def serve_concurrently(reqs, choices, faulty=False):
     return [bytes(a) for a in world.apdus()[mark["n"]:]], net, sched
 
 
-def judge(reqs, log, net, faulty=False):
+_SEQ_CACHE = {}
+
+
+def sequential_cached(order, reqs, mode):
+    """(the sequential reference runs are concrete and deterministic: one run per order and request set serves all paths)"""
+    key = (part(), tuple(order), mode)
+    if key not in _SEQ_CACHE:
+        _SEQ_CACHE[key] = sequential(order, reqs, mode)
+    return _SEQ_CACHE[key]
+
+
+def judge(reqs, log, net, mode=""):
     n = len(reqs)
-    for order in itertools.permutations(range(n)):
-        apdus, replies, isolated_ok = sequential(order, reqs, faulty)
+    first = tuple(net.accepted) if sorted(net.accepted) == list(range(n)) else None
+    orders = ([first] if first else []) + [o for o in itertools.permutations(range(n)) if o != first]
+    for order in orders:
+        apdus, replies, isolated_ok = sequential_cached(order, reqs, mode)
         flat = [a for i in order for a in apdus[i]]
         if flat == log and all(net.received[i] == replies[i] for i in range(n)):
             # the concurrent run is this sequential one; and in it every reply is built from its own request's exchanges
@@ -647,7 +737,7 @@ def judge(reqs, log, net, faulty=False):
     return False
 
 
-def run(reqs, choices, faulty=False):
+def run(reqs, choices, mode=""):
     import sim.base as sb
     sb.REAL_HEX[0] = True          # the replies are rendered to real JSON lines
     try:
@@ -657,15 +747,15 @@ def run(reqs, choices, faulty=False):
                 # Sched.split alone: the server code itself runs at native speed
                 from crosshair.tracers import NoTracing
                 with NoTracing():
-                    return _run(reqs, choices, faulty)
-            return _run(reqs, choices, faulty)
+                    return _run(reqs, choices, mode)
+            return _run(reqs, choices, mode)
     finally:
         sb.REAL_HEX[0] = False
 
 
-def _run(reqs, choices, faulty):
+def _run(reqs, choices, mode):
     try:
-        log, net, sched = serve_concurrently(reqs, choices, faulty)
+        log, net, sched = serve_concurrently(reqs, choices, mode)
     except Inconclusive:
         raise
     except Exception as e:
@@ -674,7 +764,7 @@ def _run(reqs, choices, faulty):
         note("serving raised", type(e).__name__, "".join(traceback.format_exception(e))[-600:])
         return False
     note("schedule", sched.decisions, "max runnable", sched.max_runnable, "bound exhausted", sched.exhausted)
-    return judge(reqs, log, net, faulty)
+    return judge(reqs, log, net, mode)
 
 
 NCHOICES = 14
@@ -688,8 +778,8 @@ def _zero(**kw):
 
 
 @obligation(tier="quick", parts=len(SETS), timeout=300,
-            part_names=lambda p: " | ".join(CATALOGUE[i][0] for i in SETS[p]) + (" [device abandons the advance]" if p in FAULTY else ""),
-            bounds="2, 3 or 4 (T: up to 5) simultaneously connected clients (11 (T: 17) request sets from: authorized sign, hash sign, "
+            part_names=lambda p: " | ".join(CATALOGUE[i][0] for i in SETS[p]) + (" [%s]" % MODES[p] if p in MODES else ""),
+            bounds="2, 3 or 4 (T: up to 6) simultaneously connected clients (13 (T: 20) request sets, two of them with a device that abandons an advance half way, from: authorized sign, hash sign, "
                    "advanceBlockchain, blockchainState, signerHeartbeat, getPubKey - partition); decision points: select() of the accept "
                    "loop, every device exchange, every socket read and write; schedule: 14 solver variables c0..c13, one consumed per "
                    "decision point with more than one runnable party (later ones take the first party); preemption inside other code is "
@@ -704,4 +794,118 @@ def schedules(c0: int, c1: int, c2: int, c3: int, c4: int, c5: int, c6: int, c7:
     post: _
     """
     reqs = [CATALOGUE[i][1] for i in SETS[part()]]
-    return run(reqs, [c0, c1, c2, c3, c4, c5, c6, c7, c8, c9, c10, c11, c12, c13], faulty=part() in FAULTY)
+    return run(reqs, [c0, c1, c2, c3, c4, c5, c6, c7, c8, c9, c10, c11, c12, c13], mode=MODES.get(part(), ""))
+
+
+# ------------------------------------------------------------------ the server layer alone: no reply ever crosses to another client
+
+from comm.protocol import HSM2ProtocolError, HSM2ProtocolInterrupt   # noqa: E402
+
+OUTCOMES = ["a reply", "NotImplementedError", "HSM2ProtocolError", "HSM2ProtocolInterrupt", "an unexpected exception", "the line is not JSON"]
+
+
+class StubProtocol:
+    """Stands for everything below comm.server: what handling each client's request ends in is chosen by the harness."""
+    def __init__(self, kinds):
+        self.kinds = kinds
+
+    def initialize_device(self):
+        pass
+
+    def handle_request(self, request):
+        i = request["id"]
+        kind = self.kinds[i]
+        if kind == 1:
+            raise NotImplementedError("command %d" % i)
+        if kind == 2:
+            raise HSM2ProtocolError("protocol error %d" % i)
+        if kind == 3:
+            raise HSM2ProtocolInterrupt("interrupt %d" % i)
+        if kind == 4:
+            raise ValueError("unexpected %d" % i)
+        return {"errorcode": 0, "who": i, "pad": "x" * (5 + i)}
+
+    def format_error(self):
+        return {"errorcode": -901}
+
+    def unknown_error(self):
+        return {"errorcode": -906}
+
+    def device_error(self):
+        return {"errorcode": -905}
+
+
+def _dumps(obj):
+    return real_json.dumps(obj, sort_keys=True).encode() + b"\n"
+
+
+def _crossed(kinds, choices):
+    n = len(kinds)
+    proto = StubProtocol(kinds)
+    sched = Sched(choices)
+    install_conditions(sched)
+    lines = [b"{this is not json\n" if kinds[i] == 5 else real_json.dumps({"command": "c", "id": i}).encode() + b"\n" for i in range(n)]
+    net = Net(sched, lines)
+    saved = (socketserver.socket, socketserver._ServerSelector, socketserver.os)
+    socketserver.socket = SocketModule(net)
+    socketserver._ServerSelector = selector_class(net, lambda: None)
+    socketserver.os = OsModule()
+    srv = server.TCPServer("127.0.0.1", 9999, proto)
+    srv.logger = _NotingLogger.quiet()
+    try:
+        srv.run()
+    except Inconclusive:
+        raise
+    except Exception as e:
+        reraise_control_flow(e)
+        note("serving raised", type(e).__name__, str(e)[:200])
+        return False
+    finally:
+        sched.active = False
+        sched.abort()
+        uninstall_conditions()
+        socketserver.socket, socketserver._ServerSelector, socketserver.os = saved
+    note("accepted", net.accepted, "kinds", list(kinds), "received", [r[:40] for r in net.received])
+    down = False
+    for i in net.accepted + [i for i in range(n) if i not in net.accepted]:
+        kind = kinds[i]
+        own = {0: _dumps({"errorcode": 0, "who": i, "pad": "x" * (5 + i)}), 1: b"{}\n", 2: _dumps({"errorcode": -906}), 3: b"{}\n",
+               4: b"{}\n", 5: _dumps({"errorcode": -901})}[kind]
+        got = net.received[i]
+        if down or i not in net.accepted:
+            # a request before this one took the manager down: this client is not served (or, at most, gets its own reply)
+            if got not in (b"", own):
+                return False
+            continue
+        if got != own:
+            return False
+        if kind in (2, 3, 4):
+            down = True
+    return True
+
+
+@obligation(tier="quick", parts=2, timeout=200, part_names=["2 clients", "3 clients"],
+            bounds="real comm.server + socketserver over the simulated sockets with the protocol object stubbed: what handling each client's "
+                   "request ends in is symbolic among {a reply, NotImplementedError, HSM2ProtocolError, HSM2ProtocolInterrupt, an unexpected "
+                   "exception, the line is not JSON}; accept order / thread schedule: 6 solver variables; every client gets exactly the reply "
+                   "its own outcome prescribes (its own data, {} or an error object) - never another client's -, and nothing once the "
+                   "manager is going down",
+            examples=[(0, dict(k0=0, k1=1, k2=0, c0=0, c1=0, c2=0, c3=0, c4=0, c5=0)), (1, dict(k0=0, k1=3, k2=0, c0=0, c1=0, c2=0, c3=0, c4=0, c5=0)),
+                      (1, dict(k0=5, k1=0, k2=1, c0=2, c1=1, c2=0, c3=0, c4=0, c5=0)), (1, dict(k0=2, k1=4, k2=0, c0=1, c1=0, c2=0, c3=0, c4=0, c5=0))])
+def replies_not_crossed(k0: int, k1: int, k2: int, c0: int, c1: int, c2: int, c3: int, c4: int, c5: int) -> bool:
+    """
+    pre: 0 <= k0 <= 5 and 0 <= k1 <= 5 and 0 <= k2 <= 5
+    pre: 0 <= c0 <= 3 and 0 <= c1 <= 3 and 0 <= c2 <= 3 and 0 <= c3 <= 3 and 0 <= c4 <= 3 and 0 <= c5 <= 3
+    post: _
+    """
+    import sim.base as sb
+    n = 2 + part()
+
+    def go():
+        kinds = [Sched.split(k, 6) for k in (k0, k1, k2)[:n]]
+        return _crossed(kinds, [c0, c1, c2, c3, c4, c5])
+    if sb.in_crosshair():
+        from crosshair.tracers import NoTracing
+        with NoTracing():
+            return go()
+    return go()
